@@ -126,6 +126,8 @@ func c15Accumulator(r *core.Run, p *core.Prog) {
 				r.Check(rule, key, p.Rel(a.Pos()), a.Tok == token.ADD_ASSIGN, "compound update "+a.Tok.String()+" (only += is order-insensitive)")
 			case rhs != nil && !mentionsAny(info, rhs, items):
 				r.Check(rule, key, p.Rel(a.Pos()), true, "recomputed from accumulator state")
+			case rhs != nil && helperRecomputesFromAccumulator(p, info, rhs, accs):
+				r.Check(rule, key, p.Rel(a.Pos()), true, "recomputed from accumulator state by a helper that only inserts the item's values into a set")
 			default:
 				// plain assignment of an item-derived value: min/max under comparison, set insertion, or exception
 				if _, isIdx := ast.Unparen(l).(*ast.IndexExpr); isIdx {
@@ -166,32 +168,58 @@ func c15Accumulator(r *core.Run, p *core.Prog) {
 	for _, must := range []string{pkgResults + ".RowsMap.MergeRows", "pkg/types.Counters.Add", "pkg/types/workload.Stats.Add", "maps.Copy"} {
 		r.Check(rule, "aggregateSingleResult:merges-with:"+must[strings.LastIndex(must, "/")+1:], p.Rel(f.Decl.Pos()), calls[must], "rows, totals, statistics and host statuses of every result must be merged with "+must)
 	}
-	// failed host: SetErr then return, nothing else
+	// failed host: on every path on which the item's Err() is non-nil, SetErr(host, …) is called and nothing is merged
 	okErr := false
-	core.Walk(f.Decl.Body, false, func(x ast.Node) bool {
-		ifs, ok := x.(*ast.IfStmt)
-		if !ok || !strings.Contains(core.Str(ifs.Cond), ".Err()") {
-			return true
+	{
+		g := core.GraphOf(f)
+		var errVar types.Object
+		isErrCall := func(e ast.Expr) bool {
+			c, ok := ast.Unparen(e).(*ast.CallExpr)
+			if !ok {
+				return false
+			}
+			_, m := core.MethodCall(info, c)
+			return m == "Err" && len(c.Args) == 0
 		}
-		setErr, ret, merges := false, false, false
-		core.Walk(ifs.Body, false, func(y ast.Node) bool {
-			if c, ok := y.(*ast.CallExpr); ok {
-				cn := core.CallName(info, c)
-				if cn == pkgResults+".HostsStatuses.SetErr" && len(c.Args) == 2 && strings.HasSuffix(core.Str(c.Args[0]), ".Hostname") {
-					setErr = true
-				}
-				if cn == pkgResults+".RowsMap.MergeRows" {
-					merges = true
+		cl := func(n ast.Node, cond *bool) []ev {
+			var out []ev
+			if a, ok := n.(*ast.AssignStmt); ok && len(a.Lhs) == 1 && len(a.Rhs) == 1 && isErrCall(a.Rhs[0]) {
+				errVar = core.ObjOf(info, a.Lhs[0])
+			}
+			if cond != nil {
+				if x, y, eq, ok := eqTest(n.(ast.Expr), *cond); ok && core.IsNil(info, y) && (isErrCall(x) || (errVar != nil && core.ObjOf(info, x) == errVar)) {
+					out = append(out, ev{label: map[bool]string{true: "noerr", false: "haserr"}[eq]})
 				}
 			}
-			if _, ok := y.(*ast.ReturnStmt); ok {
-				ret = true
+			for _, c := range core.Calls(n, false) {
+				switch cn := core.CallName(info, c); {
+				case cn == pkgResults+".HostsStatuses.SetErr" && len(c.Args) == 2 && strings.HasSuffix(core.Str(c.Args[0]), ".Hostname"):
+					out = append(out, ev{label: "seterr"})
+				case cn == pkgResults+".RowsMap.MergeRows" || cn == "pkg/types.Counters.Add" || cn == "pkg/types/workload.Stats.Add":
+					out = append(out, ev{label: "merge"})
+				}
 			}
-			return true
-		})
-		okErr = setErr && ret && !merges
-		return true
-	})
+			return out
+		}
+		for _, n := range g.Nodes { // learn errVar before enumerating
+			if n != nil {
+				cl(n, nil)
+			}
+		}
+		if ts, ok := traces(f, g, cl, 20000); ok {
+			nErr := 0
+			okErr = true
+			for _, t := range ts {
+				if t.has("haserr") {
+					nErr++
+					if !t.has("seterr") || t.has("merge") {
+						okErr = false
+					}
+				}
+			}
+			okErr = okErr && nErr > 0
+		}
+	}
 	r.Check(rule, "aggregateSingleResult:failed-host-recorded", p.Rel(f.Decl.Pos()), okErr, "a result carrying an error must be recorded with HostsStatuses.SetErr(host, err) and contribute nothing else")
 }
 
@@ -384,4 +412,110 @@ func c15Querier(r *core.Run, p *core.Prog) {
 		}
 	}
 	r.Check(rule, "APIClientQuerier.Query:one-result-per-host", p.Rel(f.Decl.Pos()), ok && bad == "" && nW > 0, bad)
+}
+
+// helperRecomputesFromAccumulator: rhs is a call helper(acc…, itemValue…) of a module function whose results derive only
+// from its accumulator arguments; the item-derived arguments may only be inserted into an accumulator as set members
+// (m[k] = struct{}{}), which is order-insensitive.
+func helperRecomputesFromAccumulator(p *core.Prog, info *types.Info, rhs ast.Expr, accs map[types.Object]bool) bool {
+	c, ok := ast.Unparen(rhs).(*ast.CallExpr)
+	if !ok {
+		return false
+	}
+	fo, _ := core.Callee(info, c).(*types.Func)
+	h := p.FnOf(fo)
+	if h == nil {
+		return false
+	}
+	hi := h.Info()
+	sig := h.Obj.Type().(*types.Signature)
+	if sig.Params().Len() != len(c.Args) {
+		return false
+	}
+	clean := map[types.Object]bool{}   // parameters bound to accumulators
+	tainted := map[types.Object]bool{} // everything that carries item values
+	for i, a := range c.Args {
+		if o := core.ObjOf(info, a); o != nil && accs[o] {
+			clean[sig.Params().At(i)] = true
+		} else {
+			tainted[sig.Params().At(i)] = true
+		}
+	}
+	if len(clean) == 0 {
+		return false
+	}
+	okShape := true
+	for changed := true; changed; {
+		changed = false
+		mark := func(o types.Object) {
+			if o != nil && !tainted[o] && !clean[o] {
+				tainted[o] = true
+				changed = true
+			}
+		}
+		core.Walk(h.Decl.Body, true, func(x ast.Node) bool {
+			switch st := x.(type) {
+			case *ast.RangeStmt:
+				if mentionsAny(hi, st.X, tainted) {
+					mark(core.ObjOf(hi, st.Key))
+					mark(core.ObjOf(hi, st.Value))
+				}
+			case *ast.AssignStmt:
+				for i, l := range st.Lhs {
+					var r ast.Expr
+					if i < len(st.Rhs) {
+						r = st.Rhs[i]
+					} else if len(st.Rhs) == 1 {
+						r = st.Rhs[0]
+					}
+					if r == nil || !mentionsAny(hi, r, tainted) && !mentionsAny(hi, l, tainted) {
+						continue
+					}
+					if ix, ok := ast.Unparen(l).(*ast.IndexExpr); ok && clean[core.ObjOf(hi, ix.X)] {
+						// insertion into the accumulator: only as a set member
+						if cl, ok := ast.Unparen(r).(*ast.CompositeLit); !ok || len(cl.Elts) != 0 {
+							okShape = false
+						}
+						continue
+					}
+					if mentionsAny(hi, r, tainted) {
+						root := l
+						for {
+							if se, ok := ast.Unparen(root).(*ast.SelectorExpr); ok {
+								root = se.X
+								continue
+							}
+							if ix, ok := ast.Unparen(root).(*ast.IndexExpr); ok {
+								root = ix.X
+								continue
+							}
+							break
+						}
+						if o := core.ObjOf(hi, root); o != nil && clean[o] {
+							okShape = false // item value stored into the accumulator other than as a set member
+						} else {
+							mark(o)
+						}
+					}
+				}
+			}
+			return true
+		})
+	}
+	if !okShape {
+		return false
+	}
+	nRet := 0
+	core.Walk(h.Decl.Body, false, func(x ast.Node) bool {
+		if rs, ok := x.(*ast.ReturnStmt); ok {
+			nRet++
+			for _, res := range rs.Results {
+				if mentionsAny(hi, res, tainted) {
+					okShape = false
+				}
+			}
+		}
+		return true
+	})
+	return okShape && nRet > 0
 }
